@@ -17,12 +17,13 @@ fn span_passes_midnight(r: &RuleSequence) -> bool {
     })
 }
 
-/// D11: normalisation drops a comment-less all-day `closed` canonical rule, which in evaluation
-/// suppresses the spill-over past midnight of a *later* rule on days that rule does not match.
-fn closed_all_day_before_midnight_span(e: &OpeningHoursExpression) -> bool {
+/// D11: normalisation drops a comment-less `closed` rule (a closed cell without comment is the
+/// paving's default value), whereas in evaluation the schedule that rule produces for a day hides
+/// the spill-over past midnight of a *later* rule on days that later rule does not match.
+fn commentless_closed_before_midnight_span(e: &OpeningHoursExpression) -> bool {
     for (i, r) in e.rules.iter().enumerate() {
-        let all_day_closed = r.kind == RuleKind::Closed && r.comments.is_empty() && r.time_selector == TimeSelector::default() && r.operator != RuleOperator::Fallback;
-        if all_day_closed && e.rules[i + 1..].iter().any(span_passes_midnight) {
+        let closed_no_comment = r.kind == RuleKind::Closed && r.comments.is_empty() && r.operator != RuleOperator::Fallback;
+        if closed_no_comment && e.rules[i + 1..].iter().any(span_passes_midnight) {
             return true;
         }
     }
@@ -31,7 +32,7 @@ fn closed_all_day_before_midnight_span(e: &OpeningHoursExpression) -> bool {
 
 pub fn trigger(name: &str, e: &OpeningHoursExpression) -> bool {
     match name {
-        "closed_all_day_before_midnight_span" => closed_all_day_before_midnight_span(e),
+        "commentless_closed_before_midnight_span" => commentless_closed_before_midnight_span(e),
         _ => false,
     }
 }
@@ -59,7 +60,9 @@ pub fn classify(
     let mut budget = budget;
     let mut cur = e.clone();
     if explained_by(active, &cur).is_none() {
-        return Classified::Unexplained(crate::shrink::shrink(&cur, valid, fails, budget));
+        // objective: still fails AND matches no listed trigger
+        let mut pred = |x: &OpeningHoursExpression| explained_by(active, x).is_none() && fails(x);
+        return Classified::Unexplained(crate::shrink::shrink(&cur, valid, &mut pred, budget));
     }
     loop {
         let cands: Vec<_> = crate::shrink::candidates(&cur).into_iter().filter(|c| valid(c)).collect();
